@@ -26,7 +26,7 @@ from ..lifecycle import Lifecycle
 from ..repo import AnalysisError, dotted, own_nodes
 from .c07 import registry
 from .c12 import reset_order
-from .common import DISPATCHER, OBSERVER
+from .common import DISPATCHER, OBSERVER, is_empty_dict
 
 MANIFEST = {
     "text": (
@@ -139,6 +139,32 @@ def run(ctx):
         chk.ok("R11.a", init_f.qualname, init_f.loc(), "component arrays are read from the components on every call")
     elif not reads and not stale:
         chk.violation("R11.a", init_f, None, "initialize_features does not read the components' feature arrays")
+
+    # (c) the composite's table holds the components' feature types only:
+    # the base constructor pre-allocates one zero matrix per feature type, so
+    # initialize_features must replace the whole dict (or clear it), not just
+    # assign the keys its components happen to have
+    ws = [w for w in lc.attr_writes(init_f, comp) if w.attr == "features"]
+    whole = [w for w in ws if w.kind == "rebind" or (w.kind in ("inplace", "overwrite") and ".clear()" in w.text)]
+    fo_init = repo.method(repo.find_class("FeatureObserver"), "__init__")
+    prealloc = fo_init is not None and any(
+        w.attr == "features" and w.kind == "rebind" and not is_empty_dict(getattr(w.event.node, "value", None))
+        for w in lc.attr_writes(fo_init, comp)
+    )
+    if ws and not whole and not prealloc:
+        chk.ok("R11.a", init_f.qualname, ws[0].loc, "entries assigned into a dict the constructor leaves empty")
+    elif ws and not whole:
+        chk.violation(
+            "R11.a", init_f, ws[0].event.node,
+            f"initialize_features only assigns entries of the existing dict ({ws[0].text}): the zero matrices the base "
+            "constructor pre-allocates for feature types that no component tracks stay in `features`, so the composite "
+            "has entries (and columns without names) that are not the concatenation of anything",
+            loc=ws[0].loc,
+        )
+    elif whole:
+        chk.ok("R11.a", init_f.qualname, whole[0].loc, "features is replaced as a whole on every call")
+    else:
+        chk.violation("R11.a", init_f, None, "initialize_features never writes self.features")
 
     # ---------------------------------------------------------------- R11.b
     obs = repo.find_class(OBSERVER)
